@@ -32,8 +32,8 @@ Section Reparent.
   Hypothesis H5name : forall x, oname (st5 x) = if N.eqb x o then nn else oname (st x).
   Hypothesis H5par : forall x, oparent (st5 x) = if N.eqb x o then Some np else oparent (st x).
   Hypothesis H5cont : forall x, ocont (st5 x) = if N.eqb x np then cset nn o (C4 np) else C4 x.
-  Let s2 := mkState st5 (next s) m1 (roots s) d'.
-  Let s5 := mkState st5 (next s) m2 (roots s) d'.
+  Let s2 := mkState st5 (next s) m1 (roots s) d' (unproc s).
+  Let s5 := mkState st5 (next s) m2 (roots s) d' (unproc s).
   Hypothesis HT : subtree s o = Some T.
   Hypothesis Hm1 : del_walk s T (allobj s) = Some m1.
   Hypothesis Hm2 : set_walk s2 T m1 = Some m2.
@@ -340,12 +340,12 @@ Proof.
   set (d' := S (depthb s + depthb s)) in *.
   unfold readd_tree in H at 1.
   (* the first _handle_reparenting_post walks the same objects *)
-  assert (HT2 : subtree (mkState st2 (next s) m1 (roots s) d') o = Some T).
+  assert (HT2 : subtree (mkState st2 (next s) m1 (roots s) d' (unproc s)) o = Some T).
   { unfold subtree in *. cbn [depthb store]. rewrite (subtree_f_ext (store s) st2).
     - apply (subtree_f_mono _ _ _ _ ET). unfold d'. lia.
     - intros x. destruct (rps_st2 (store s) o np nn x) as [_ [_ [_ [A4 _]]]]. exact A4. }
   rewrite HT2 in H. cbn [allobj] in H.
-  destruct (set_walk (mkState st2 (next s) m1 (roots s) d') T m1) as [m2|] eqn:Em2; [|discriminate].
+  destruct (set_walk (mkState st2 (next s) m1 (roots s) d' (unproc s)) T m1) as [m2|] eqn:Em2; [|discriminate].
   destruct (adel_strict name_eqb (oname (store s o)) (ocont (st2 oldp))) as [c3|] eqn:Ec3; [|discriminate].
   apply adel_strict_some' in Ec3. subst c3. cbn [depthb] in H.
   set (st3 := upd st2 oldp (with_cont (st2 oldp) (adel name_eqb (oname (store s o)) (ocont (st2 oldp))))) in *.
@@ -355,7 +355,7 @@ Proof.
   unfold readd_tree in H.
   assert (Hin_T : forall x, In x T -> reg s x /\ anc (store s) o x).
   { intros x Hx. apply (desc_reg_anc s HI o x Ho). eapply subtree_f_desc; [exact ET | exact Hx]. }
-  assert (HT5 : subtree (mkState st5 (next s) m2 (roots s) d') o = Some T).
+  assert (HT5 : subtree (mkState st5 (next s) m2 (roots s) d' (unproc s)) o = Some T).
   { unfold subtree in *. cbn [depthb store] in *. apply (subtree_f_local st2); [exact HT2|].
     intros x Hx. destruct (Hin_T x Hx) as [_ Ha].
     assert (Hxnp : x <> np) by (intros ->; apply Hnotanc; exact Ha).
@@ -368,9 +368,9 @@ Proof.
     assert (R2 : ocont (st2 x) = ocont (store s x)) by (apply (rps_st2 (store s) o np nn x)).
     rewrite R2. reflexivity. }
   rewrite HT5 in H. cbn [allobj] in H.
-  destruct (set_walk (mkState st5 (next s) m2 (roots s) d') T m2) as [m3|] eqn:Em3; [|discriminate].
+  destruct (set_walk (mkState st5 (next s) m2 (roots s) d' (unproc s)) T m2) as [m3|] eqn:Em3; [|discriminate].
   inversion H; subst s'. clear H.
-  assert (Em2' : set_walk (mkState st5 (next s) m1 (roots s) d') T m1 = Some m2).
+  assert (Em2' : set_walk (mkState st5 (next s) m1 (roots s) d' (unproc s)) T m1 = Some m2).
   { rewrite <- Em2. apply set_walk_ext. intros x. unfold fullpath. cbn [depthb store].
     apply (rps_fullpath2 (store s) o np oldp nn fno). }
   apply (reparent_states_inv s o np oldp nn pn po HI Ho Hnp Hnpmod Hopar Holdcan Hnotanc Hpn Hpo (Hfree pn Hpn) Hcov
